@@ -165,8 +165,10 @@ func (e *Entry) SlotNames() []string {
 type Tables struct {
 	Kinds  []Entry `json:"kinds"`
 	CExprs []Entry `json:"cexprs"`
-	once   sync.Once
-	byKey  map[string]*Entry
+	// VClasses: the value classes of an operand by type (int fp ptr ptras vec svec agg), Schema.tla VClasses
+	VClasses map[string][]string `json:"vclasses"`
+	once     sync.Once
+	byKey    map[string]*Entry
 }
 
 // Lookup returns the entry of a kind in a category ("inst"/"term" share one namespace, "cexpr" another).
@@ -231,7 +233,8 @@ type Op struct {
 	Role string `json:"role"`
 	Src  string `json:"src"`
 	Ty   Type   `json:"ty"`
-	CV   int    `json:"cv"` // value a constant operand must have (struct field number of a getelementptr), else -1
+	CV   int    `json:"cv"`           // value a constant operand must have (struct field number of a getelementptr), else -1
+	VC   string `json:"vc,omitempty"` // value class of a constant operand (family "opclass": lit0 lit1 lit null zero undef poison global expr blockaddr)
 	V    *Ref   `json:"v,omitempty"`
 }
 
@@ -296,6 +299,11 @@ func (c *Case) ID() string {
 	for i, a := range c.Alias {
 		if a != i+1 {
 			x += fmt.Sprintf("/op%d=op%d", i+1, a)
+		}
+	}
+	for i := range c.Ops {
+		if c.Ops[i].VC != "" {
+			x += fmt.Sprintf("/%s=%s", c.Ops[i].Key(), c.Ops[i].VC)
 		}
 	}
 	if c.Kind == "getelementptr" && c.Fam == "path" {
